@@ -1932,7 +1932,7 @@ func (e *Engine) frameObligations(fr *Frame, st, base *State, targets []*havocTa
 			continue
 		}
 		x := tb.Fresh("fr_x", SRef)
-		conds := []*Term{tb.IntCmp("<", tb.RootID(x), clock0)}
+		conds := []*Term{tb.IntCmp("<", tb.RootID(x), clock0), tb.Not(tb.Eq(x, tb.RefNil()))}
 		var ranged []*havocTarget
 		for _, t := range targets {
 			if t.heap != n {
@@ -2115,6 +2115,8 @@ func (e *Engine) syntacticFrame(cur, base *Term, targets []*havocTarget, heap st
 		if !tb.IsOldRef(ref) {
 			alts = append(alts, tb.IntCmp(">=", tb.RootID(ref), clock0))
 		}
+		// no object lives at the nil reference: a "write" there is never executed (it would panic)
+		alts = append(alts, tb.Eq(ref, tb.RefNil()))
 		for _, t := range targets {
 			if t.heap == heap && t.lo == nil {
 				alts = append(alts, tb.Eq(ref, t.ref))
